@@ -20,6 +20,8 @@ clause → theorem
 * the extracted facts are the ones the proofs need ................ `C12.source_facts`
 * every branch that makes a wait condition true notifies
   (ack, cancel, advance, resume; for both waits; ALL states) ...... `C12.wake_obligation`
+* a parked waiter is woken by the very call that makes its
+  condition true .................................................. `C12.enabling_op_wakes`
 * never parked while the condition holds, every interleaving ..... `C12.parked_implies_not_pred`
   (+ whoever is parked was put there by a check that saw it false)  `C12.mutex_consistent`
 * returns as soon as …: once the condition holds the waiter does
@@ -81,6 +83,22 @@ theorem parked_implies_not_pred (k : Kind) (s0 : Sh) (evs : List Ev) :
 theorem mutex_consistent (k : Kind) (s0 : Sh) (evs : List Ev) :
     (run cfg k (St.init s0) evs).locked = true ↔ (run cfg k (St.init s0) evs).pc = .checking :=
   (NoLost.run source_facts evs (NoLost.init k s0)).mutex
+
+/-- **The event it waits for wakes it.** In every reachable state in which the waiter is parked, a
+method call after which the wait condition holds moves the waiter out of the wait (`woken`), in the
+same atomic step. -/
+theorem enabling_op_wakes (k : Kind) (s0 : Sh) (pre : List Ev) (o : Op)
+    (hpk : (run cfg k (St.init s0) pre).pc = .parked)
+    (h1 : pred k (applyOp cfg.tbl o (run cfg k (St.init s0) pre).sh).1 = true) :
+    (step cfg k (run cfg k (St.init s0) pre) (.op o)).pc = .woken := by
+  have hinv := NoLost.run source_facts pre (NoLost.init k s0)
+  generalize run cfg k (St.init s0) pre = st at *
+  have hl : st.locked = false := by
+    cases hlk : st.locked with
+    | false => rfl
+    | true => have := hinv.mutex.mp hlk; simp [hpk] at this
+  have hn := wake_obligation k o st.sh (hinv.parked hpk) h1
+  simp [step, hl, hpk, hn]
 
 -- non-vacuity: the waiter does park (window full), is woken by an ack and returns
 example : (run cfg (.credit 4) (St.init ⟨8, 8, 0, 0, none, none, []⟩) [.lock, .check false]).pc = .parked := by decide
